@@ -381,7 +381,7 @@ func driveC16(o opts) error {
 			}
 			if !connected {
 				fail("the client cannot connect after a cut during its first connection attempts")
-				w.Add(emit.Case{Term: "[]", JSON: map[string]interface{}{"case": ci}, Key: fmt.Sprint("noconnect", ci), Oracle: oracle})
+				w.Add(emit.Case{Term: "C16.CSteps []", JSON: map[string]interface{}{"case": ci}, Key: fmt.Sprint("noconnect", ci), Oracle: oracle})
 				return nil
 			}
 			// populate
@@ -679,7 +679,7 @@ func driveC16(o opts) error {
 				}
 				hist.mu.Unlock()
 			}
-			term := "[" + strings.Join(stepTerms, ";\n    ") + "]"
+			term := "C16.CSteps [" + strings.Join(stepTerms, ";\n    ") + "]"
 			w.Add(emit.Case{Term: term, JSON: map[string]interface{}{"monitors": groups, "steps": stepJ, "silent": silentMode, "history": historyMode}, Key: term,
 				Nontrivial: nm >= 2 || foundAnswers > 0, Oracle: oracle})
 			return nil
@@ -687,6 +687,9 @@ func driveC16(o opts) error {
 		if err != nil {
 			return err
 		}
+	}
+	if err := c16Leader(o, g, w); err != nil {
+		return err
 	}
 	return w.Flush()
 }
